@@ -5,6 +5,7 @@ CONSTANTS
   RPB = 2
   NSigs = 2
   NHours = 2
+  NKeys = 1
   MaxBuf = 3
   QCap = 3
   NWorkers = 1
